@@ -28,7 +28,7 @@ func ProfileCodec(avoid map[string]string) *Profile {
 		Optionals: true, Repeateds: true, Enums: true, Timestamps: true, MessageFields: true,
 		MaxServices: 1, MaxMethods: 5, Transport: true, BasePaths: true, QueryOnBody: false,
 		Stratified: true, Features: Features(AllFeatures...), MultiFeature: false, AnnotatedNested: true, AnnotateAnyCard: true, MultiWordChild: true,
-		Avoid: avoid}
+		CompanionPackage: true, Avoid: avoid}
 }
 
 // ProfileMatrix is the compile matrix: every annotation on every cardinality it is accepted
@@ -36,6 +36,7 @@ func ProfileCodec(avoid map[string]string) *Profile {
 func ProfileMatrix(avoid map[string]string) *Profile {
 	p := ProfileFull(avoid)
 	p.Name = "matrix"
+	p.CompanionPackage = true
 	p.HostileNames = true
 	p.Recursive = false
 	return p
@@ -47,6 +48,7 @@ func ProfileMatrix(avoid map[string]string) *Profile {
 func ProfileMinimal(avoid map[string]string) *Profile {
 	p := ProfileFull(avoid)
 	p.Name = "minimal"
+	p.CompanionPackage = true
 	p.MaxDataMessages, p.MaxFields = 0, 2
 	p.MaxServices, p.MaxMethods = 1, 1
 	p.SecondFile, p.Recursive, p.MultiFeature, p.SharedRequest = false, false, false, false
@@ -96,7 +98,7 @@ func ProfileConcurrency(avoid map[string]string) *Profile {
 // ProfileMock: plain schemas with examples, used with generate_mock=true.
 func ProfileMock(avoid map[string]string) *Profile {
 	return &Profile{Name: "mock", MaxDataMessages: 2, MaxFields: 4, Maps: true, Optionals: true, Repeateds: true, Enums: true, MessageFields: true, Timestamps: true,
-		MaxServices: 2, MaxMethods: 2, Transport: true, BasePaths: true, Headers: true, Examples: true, NoClient: true, MockShape: true, Avoid: avoid}
+		MaxServices: 2, MaxMethods: 2, Transport: true, BasePaths: true, Headers: true, Examples: true, NoClient: true, MockShape: true, CompanionPackage: true, Avoid: avoid}
 }
 
 // ProfileOpenAPI: everything that shapes OpenAPI documents.
